@@ -441,8 +441,16 @@ def run_fit_inner(cfg, want_fd=False):
                 h = FD_STEP * abs(pt[i])
                 e = np.zeros(len(pt)); e[i] = h
                 F = lambda z: float(kw["fun"](pt + z * e))
-                fd[i] = (8 * (F(1) - F(-1)) - (F(2) - F(-2))) / (12 * h)        # 4th-order central difference
-        if g.shape == fd.shape and np.all(np.isfinite(fd)):
+                d1 = (8 * (F(1) - F(-1)) - (F(2) - F(-2))) / (12 * h)           # 4th-order central difference, step h
+                d2 = (8 * (F(0.25) - F(-0.25)) - (F(0.5) - F(-0.5))) / (3 * h)  # ... and step h/4
+                fd[i] = d2
+                # the two estimates must agree far better than the tolerance used below, otherwise the finite difference
+                # itself is not trustworthy here (stiff / oscillatory cost surfaces: FitzHugh at large c) and nothing is judged
+                if not abs(d1 - d2) <= 0.05 * TOL_FD * max(abs(d2), 1e-12):
+                    fd[i] = float("nan")
+        if g.shape == fd.shape and np.any(np.isnan(fd)):
+            out["fd_unsettled"] = True
+        elif g.shape == fd.shape and np.all(np.isfinite(fd)):
             out["fd"] = float(np.max(np.abs(g - fd)) / max(np.max(np.abs(fd)), 1e-12))
             out["fd_detail"] = dict(point=pt.tolist(), jac=g.tolist(), fd=fd.tolist())
         else:
@@ -547,6 +555,8 @@ def run(ck):
             stats["max_cost_excess"] = max(stats["max_cost_excess"], (r["c1"] - r["c0"]) / (1 + abs(r["c0"])))
         if "i0" in r and math.isfinite(r["i0"]) and math.isfinite(r["i1"]):
             stats["max_oracle_excess"] = max(stats["max_oracle_excess"], (r["i1"] - r["i0"]) / (1 + abs(r["i0"])))
+        if r.get("fd_unsettled"):
+            stats["fd_unsettled_excluded"] = stats.get("fd_unsettled_excluded", 0) + 1
         if r["fd"] is not None:
             stats["fd_checks"] += 1
             stats["max_fd"] = max(stats["max_fd"], r["fd"])
